@@ -4,6 +4,7 @@ import WinterProofs.Lemmas.C10Bind
 import WinterProofs.Lemmas.C10Asm
 import WinterProofs.Lemmas.C10Unique
 import WinterProofs.Lemmas.C10Spec
+import WinterProofs.Lemmas.C10Paths
 
 namespace WinterProofs.C10
 open Model.Merkle
@@ -160,6 +161,155 @@ theorem batch_mutation_rejected (H : Hasher D) [DecidableEq D] (inj : MergeInj H
     exact absurd h2.symm hne
   · exact h
 
+/-- `into_paths` never panics, whatever the opening and the position list (false on the pinned tree
+    for depth ≥ 64 and for positions close to `usize::MAX`; repaired by 3957985 and 0c7e7d6) -/
+theorem paths_no_panic (H : Hasher D) (p : BatchProof D) (idxs : List Nat) :
+    (∃ ps, intoPaths H p idxs = .ok ps) ∨ ∃ e, intoPaths H p idxs = .err e :=
+  (intoPaths_sat H p idxs).no_panic
+
+/-! ## Decompression and re-compression (`into_paths`, `from_paths`) -/
+
+/-- The round trips, stated at full strength (NOT proved; exercised exhaustively for all trees of
+    2..16 leaves, all position subsets and orders by the correspondence harness, and on the concrete
+    opening below): the opening produced by `prove_batch` decompresses into exactly the single
+    paths `prove` produces, in the order of the position list, and these re-compress to the same
+    opening; conversely paths re-compressed by `from_paths` decompress to themselves. -/
+def PathsRoundTrip (H : Hasher D) : Prop :=
+  ∀ (leaves : List D) (d : Nat), 1 ≤ d → d ≤ 63 → leaves.length = 2 ^ d →
+  ∀ (idxs : List Nat), idxs ≠ [] → idxs.length ≤ 255 → idxs.Nodup → (∀ i ∈ idxs, i < 2 ^ d) →
+    ∃ p paths, proveBatch H (treeOf H leaves) idxs = .ok p ∧
+      paths.length = idxs.length ∧
+      (∀ j (hj : j < idxs.length), prove (treeOf H leaves) idxs[j] = .ok (paths.getD j [])) ∧
+      intoPaths H p idxs = .ok paths ∧ fromPaths H paths idxs = .ok p
+
+/-! ## The specification `specRoot` (WinterProofs/Lemmas/C10Spec.lean)
+
+`specRoot H l F ns`: the frontier `F` of (heap position, digest) pairs is processed level by level;
+a position whose sibling follows it in the frontier is paired with it, otherwise the next proof node
+of the flat list `ns` is consumed; after `l` levels the frontier is the root alone and `ns` is empty. -/
+
+/-- Completeness of the specification: for every Merkle valuation of depth `d` (node `j` is the
+    hash of nodes `2j`, `2j+1`; leaves at `2^d + i`) and every non-empty list of in-range positions
+    in any order, the frontier of the committed leaves with the specification's proof nodes gives
+    the root. -/
+theorem spec_root_complete (H : Hasher D) (val : Nat → D) (d : Nat) (wf : ValWF H val d) (idxs : List Nat)
+    (hne : idxs ≠ []) (hr : ∀ i ∈ idxs, i < 2 ^ d) :
+    specRoot H d (leafFrontier d idxs (idxs.map (fun i => val (2 ^ d + i))) [])
+      (specNodes val d (SMap.keys (leafFrontier d idxs (idxs.map (fun i => val (2 ^ d + i))) []))) = some (val 1) :=
+  spec_complete H val d wf idxs hne hr
+
+/-- Binding of the specification: if `merge` is collision free and `specRoot` computes the root
+    from the frontier of the claimed leaves of a duplicate-free in-range position list, whatever the
+    proof nodes, every claimed leaf is the committed one. -/
+theorem spec_root_binding (H : Hasher D) (inj : MergeInj H) (val : Nat → D) (d : Nat) (wf : ValWF H val d)
+    (idxs : List Nat) (leaves ns : List D) (hnd : idxs.Nodup) (hr : ∀ i ∈ idxs, i < 2 ^ d)
+    (h : specRoot H d (leafFrontier d idxs leaves []) ns = some (val 1)) :
+    ∀ (j i : Nat) (l : D), idxs[j]? = some i → leaves[j]? = some l → l = val (2 ^ d + i) :=
+  spec_binding H inj val d wf idxs leaves ns hnd hr h
+
+/-- The code-shaped verifier is sound with respect to the specification on trees: whenever
+    `get_root` recomputes the root of a tree from an opening of the tree's depth (`merge` collision
+    free), `specRoot` accepts the frontier of the opening's leaves with the specification's own
+    proof nodes.  (The structural refinement — `get_root` on positional rows and proof pointers equals
+    `specRoot` on the flattened rows for an arbitrary `merge` and arbitrary digests — is
+    `GetRootRefinesSpec`; it is not proved.  The property theorems `batch_complete`,
+    `batch_binding`, `batch_unique` above are proved directly on the code-shaped functions and do
+    not depend on it.) -/
+theorem getRoot_sound_wrt_spec_partial (H : Hasher D) [DecidableEq D] (inj : MergeInj H) (leaves : List D) (d : Nat)
+    (hd1 : 1 ≤ d) (hl : leaves.length = 2 ^ d) (root : D) (hroot : (treeOf H leaves).root = .ok root)
+    (p : BatchProof D) (hdp : p.depth = d) (idxs : List Nat) (hg : getRoot H p idxs = .ok root) :
+    ∃ ns, specRoot H d (leafFrontier d idxs p.leaves []) ns = some root := by
+  have wf : TreeWF H (treeOf H leaves) d := tree_wf H leaves d hd1 hl
+  obtain ⟨root', hr1, hr2⟩ := root_of_wf H _ d wf
+  rw [hr2] at hroot
+  injection hroot with hroot
+  subst hroot
+  have hvr := treeVal_root H _ d wf root' hr1
+  have vwf := treeVal_wf H _ d wf
+  rw [← hvr] at hg ⊢
+  subst hdp
+  obtain ⟨hne, _, hlen, _, imap, _, _, _, _, _, hm, _⟩ := getRoot_ok_stages H p idxs _ hg
+  obtain ⟨_, _, hrange, _⟩ := mapIndexes_ok hm
+  have hb := getRoot_binding H inj (treeVal H (treeOf H leaves)) p idxs vwf hd1 hg
+  have hleaves : p.leaves = idxs.map (fun i => treeVal H (treeOf H leaves) (2 ^ p.depth + i)) := by
+    apply List.ext_getElem?
+    intro j
+    by_cases hj : j < idxs.length
+    · rw [hb j hj, List.getElem?_map, List.getElem?_eq_getElem hj]; rfl
+    · rw [List.getElem?_eq_none (by omega), List.getElem?_eq_none (by simp; omega)]
+  rw [hleaves]
+  exact ⟨_, spec_complete H _ p.depth vwf idxs hne hrange⟩
+
+/-- the proof nodes one level of `get_root` reads, in the order it reads them, and the advanced
+    proof pointers (lock-step over positions, rows and pointers as `rootLevel`) -/
+def readLevel : List Nat → List (List D) → List Nat → Option (List D × List Nat)
+  | [], _, ptrs => some ([], ptrs)
+  | [_], rows, ptrs =>
+    match rows, ptrs with
+    | row :: _, ptr :: ptrs' => (row[ptr]?).map (fun s => ([s], (ptr + 1) :: ptrs'))
+    | _, _ => none
+  | k :: k' :: rest, rows, ptrs =>
+    if k' = xor1 k then
+      match rows, ptrs with
+      | _ :: _ :: rows', p0 :: p1 :: ptrs' => (readLevel rest rows' ptrs').map (fun r => (r.1, p0 :: p1 :: r.2))
+      | _, _ => none
+    else
+      match rows, ptrs with
+      | row :: rows', ptr :: ptrs' =>
+        match row[ptr]? with
+        | none => none
+        | some s => (readLevel (k' :: rest) rows' ptrs').map (fun r => (s :: r.1, (ptr + 1) :: r.2))
+      | _, _ => none
+
+def readLevels (rows : List (List D)) : Nat → List Nat → List Nat → Option (List D × List Nat)
+  | 0, _, ptrs => some ([], ptrs)
+  | l + 1, K, ptrs =>
+    match readLevel K rows ptrs with
+    | none => none
+    | some (s, ptrs') => (readLevels rows l (parents K) ptrs').map (fun r => (s ++ r.1, r.2))
+
+/-- the first loop of `get_root` reads the head of the row of every pair with a missing leaf -/
+def readLeaves (imap : SMap Nat) : List Nat → List (List D) → Option (List D × List Nat)
+  | [], _ => some ([], [])
+  | _ :: _, [] => none
+  | e :: norm, row :: rows =>
+    if SMap.get imap e ≠ none ∧ SMap.get imap (e + 1) ≠ none then
+      (readLeaves imap norm rows).map (fun r => (r.1, 0 :: r.2))
+    else
+      match row with
+      | [] => none
+      | s :: _ => (readLeaves imap norm rows).map (fun r => (s :: r.1, 1 :: r.2))
+
+/-- the rows of an opening flattened in the order `get_root` consumes them; `none` when a row is
+    too short or not consumed to its end -/
+def flattenRows (imap : SMap Nat) (p : BatchProof D) (norm : List Nat) : Option (List D) :=
+  match readLeaves imap norm p.nodes with
+  | none => none
+  | some (s0, ptrs) =>
+    match readLevels p.nodes (p.depth - 1) (norm.map (fun e => (2 ^ p.depth + e) / 2)) ptrs with
+    | none => none
+    | some (s1, ptrs') => if anyUnused ptrs' p.nodes then none else some (s0 ++ s1)
+
+/-- The structural refinement, stated at full strength (NOT proved): for every `merge`, every opening
+    of depth ≥ 1 and every position list that passes the index checks, `get_root` is `specRoot` on the
+    frontier of the opening's leaves and the rows flattened in consumption order.  What is missing
+    is the invariant relating the positional rows / proof pointers of `rootLeafLoop`, `rootLevel` to
+    the flat list (`readLeaves`, `readLevel`), and the correspondence between the pair-wise first
+    loop and the element-wise first level of the specification. -/
+def GetRootRefinesSpec (H : Hasher D) : Prop :=
+  ∀ (p : BatchProof D) (idxs : List Nat) (imap : SMap Nat), 1 ≤ p.depth → idxs ≠ [] → idxs.length ≤ 255 →
+    idxs.length = p.leaves.length → mapIndexes idxs p.depth = .ok imap →
+    (normalizeIndexes idxs).length = p.nodes.length →
+    getRoot H p idxs =
+      match flattenRows imap p (normalizeIndexes idxs) with
+      | none => .err .invalid
+      | some ns =>
+        match specRoot H p.depth (leafFrontier p.depth idxs p.leaves []) ns with
+        | some r => .ok r
+        | none => .err .invalid
+
+-- the statement is meaningful: it holds on the concrete opening below (see the examples)
+
 /-! ## Concrete instances (every theorem with hypotheses has a non-trivial instance)
 
 The example hasher is the free binary tree over the leaves: `merge` is a constructor, hence
@@ -213,6 +363,30 @@ example : verifyBatch exH exRoot [6, 1, 3] { exBatch with nodes := [[T.leaf 0], 
     verifyBatch exH exRoot [6, 1, 1] exBatch = .err .dup ∧
     verifyBatch exH exRoot [6, 1, 8] exBatch = .err .oob ∧
     verifyBatch exH exRoot [1, 6, 3] exBatch = .err .invalid := by decide
+
+-- the round trips on the concrete opening (positions in the order 6, 1, 3)
+example : ∃ paths, intoPaths exH exBatch [6, 1, 3] = .ok paths ∧
+    prove exTree 6 = .ok (paths.getD 0 []) ∧ prove exTree 1 = .ok (paths.getD 1 []) ∧
+    prove exTree 3 = .ok (paths.getD 2 []) ∧ fromPaths exH paths [6, 1, 3] = .ok exBatch :=
+  ⟨[[T.leaf 6, T.leaf 7, T.node (T.leaf 4) (T.leaf 5), T.node (T.node (T.leaf 0) (T.leaf 1)) (T.node (T.leaf 2) (T.leaf 3))],
+    [T.leaf 1, T.leaf 0, T.node (T.leaf 2) (T.leaf 3), T.node (T.node (T.leaf 4) (T.leaf 5)) (T.node (T.leaf 6) (T.leaf 7))],
+    [T.leaf 3, T.leaf 2, T.node (T.leaf 0) (T.leaf 1), T.node (T.node (T.leaf 4) (T.leaf 5)) (T.node (T.leaf 6) (T.leaf 7))]],
+   by decide, by decide, by decide, by decide, by decide⟩
+-- malformed inputs of `from_paths` are the documented panics, `into_paths` returns errors
+example : (fromPaths exH ([] : List (List T)) []).isPanic = true ∧
+    (fromPaths exH [[T.leaf 1, T.leaf 0]] [1, 2]).isPanic = true ∧
+    (fromPaths exH [[T.leaf 1, T.leaf 0], [T.leaf 1, T.leaf 0]] [1, 1]).isPanic = true ∧
+    intoPaths exH { exBatch with depth := 200 } [6, 1, 3] = .err .invalid ∧
+    intoPaths exH exBatch [6, 1, 18446744073709551615] = .err .oob ∧
+    intoPaths exH { exBatch with nodes := [[T.leaf 0, T.leaf 9], [T.leaf 2], [T.leaf 7, T.node (T.leaf 4) (T.leaf 5)]] }
+      [6, 1, 3] = .err .invalid := by decide
+
+-- the refinement statement on the concrete opening: the rows flatten to the nodes `specRoot` consumes
+example : flattenRows [(1, 1), (3, 2), (6, 0)] exBatch (normalizeIndexes [6, 1, 3]) =
+    some [T.leaf 0, T.leaf 2, T.leaf 7, T.node (T.leaf 4) (T.leaf 5)] ∧
+    specRoot exH 3 (leafFrontier 3 [6, 1, 3] exBatch.leaves [])
+      [T.leaf 0, T.leaf 2, T.leaf 7, T.node (T.leaf 4) (T.leaf 5)] = some exRoot ∧
+    getRoot exH exBatch [6, 1, 3] = .ok exRoot := by decide
 
 /-- Why `single_binding` fixes the length of the path (and `batch_binding` the depth of the
     opening): `verify` takes the depth of the tree from the path, and the two-node path
